@@ -115,6 +115,19 @@ STRENGTHENED = """
 | C17-e (int64 fast path when listing) | no serial in [2^63, 2^64) | serials 2^31, 2^32, 2^63-1, 2^63, 2^64-1 |
 | C19-f (cached params) | parameters never changed after genesis | governance parameter change (Subspace.Update of the minimum deposit, as the parameter-change proposal handler does) as a block-level event; the oracle follows the new minimum |
 | C20-f (stale manifest after a roll-back) | every update was a new manifest | 30 % of updates return to the manifest before the current one |
+| C02-h (settlement clock rebased on genesis import) | exports were only validated, never imported | the exported state is imported into a fresh application and exported again; for C01/C02/C03/C05 the escrow section must come back unchanged |
+| C05-h / C06-b (gseq/oseq swapped when decoding a payment id) | leases (1,2) and (2,1) of one provider were rare | busy-provider and spread modes for C03/C05, more multi-group deployments, lease churn not damped |
+| C06-h (create-lease revives a withdrawn bid) | no rule for a tenant acting on an ended bid | a create-lease naming a bid that is not open may change nothing; withdrawn bids of open orders are targeted |
+| C07-g (concurrent validation, first error wins) | every invalid certificate message had one defect | messages with a wrong PEM type in the certificate, the public key or both |
+| C07-h (state-writing invariant behind a node-local option) | every replica ran with the same operator options | replica i runs with --inv-check-period i |
+| C09-h (response cache keyed by path) | **the check hung**: a handler parked at a scheduling point while holding the cache's mutex; and a cached answer reaches no back end, which was the only thing the oracle watched | yieldgen inserts no scheduling point while a lock is visibly held; a 200 on a lease or deployment route must be backed by a back-end call for the authenticated account in that request |
+| C10-h (cross validation limited to leased groups) | the on-chain version was always the hash of a manifest that matches the groups | the tenant may record the version of a mismatching manifest |
+| C12-g (empty inventory report ignored) | reports always had 1-4 nodes | 12 % of the refreshes report no node |
+| C13-h (close-bid sent with a cancelled context) | shutdown was always Service.Close(); an abandoned close-bid call counted as submitted | a third of the shutdowns cancel the service context; a call abandoned because its own context was cancelled is not a submission |
+| C14-h (hostnames recorded before the whole reservation is checked) | one hostname per manifest, never refused | some leases name a free hostname followed by one on the provider's block list; their own hostname must be free after close |
+| C15-h (results of one block dropped) | feed results carried no heights | heights as a node sets them, several transactions per block, one header per block |
+| C16-h (merged subscriptions drop overtaken transactions) | only publishEvents was driven | 40 % of the feed runs drive events.Publish with a stand-in node client; goroutines created by errgroup are ordered by the names of the channels they select on |
+| C19-g (validation remembered in process memory) | **exit 2**: the violation depended on what the worker process had executed before and did not reproduce in a fresh process | replay files record the worker's position; a replay that shows nothing in a fresh process is repeated after the preceding runs of that worker and reported with a WARM-PROCESS note |
 | C20-a (wait on Done()) / C10-b (updates dropped during fetch) | deployment-closed rarely hit an in-flight fetch; fetch answers were always computed at completion time; no submission of the previous version | close is 4x more likely while a fetch is in flight; 40 % of fetch answers reflect the state at issue time; new submission kind "previous-version" |
 """
 
